@@ -1,8 +1,7 @@
 ---------------------------- MODULE MC_VarScope ----------------------------
 (* Model-checking / case-emitting wrapper of VarScope (TLC only). *)
-EXTENDS VarScope, Json, TLCExt
+EXTENDS VarScope, Json, TLCExt, SequencesExt
 
-SetToSeq(S) == CHOOSE f \in [1..Cardinality(S) -> S] : \A i, j \in 1..Cardinality(S) : i < j => f[i] < f[j]
 Str(b) == [i \in 1..Len(b) |-> b[i].k \o b[i].n]
 
 NoConfig == {[consts |-> <<>>, params |-> <<>>]}
